@@ -450,7 +450,10 @@ def g3(rng):
         exp = [r for r in ranks if r != K] + [K + "1", K + "0"]
     elif variant == "occ2":
         s2 = sz * rng.randint(1, 3)
-        parts[K] = ["uniform_occupancy(%s.%d)" % (leader, s2), "uniform_occupancy(%s.%d)" % (leader, sz)]
+        leader2 = rng.choice(holders)
+        parts[K] = ["uniform_occupancy(%s.%d)" % (leader, s2), "uniform_occupancy(%s.%d)" % (leader2, sz)]
+        if leader2 != leader:
+            tags.append("different_leaders")
         exp = [r for r in ranks if r != K] + [K + "2", K + "1", K + "0"]
     elif variant == "occ_under_shape":
         parts[K] = ["uniform_shape(%d)" % rng.randint(2, 5), "uniform_occupancy(%s.%d)" % (leader, sz)]
